@@ -43,6 +43,7 @@ def documents(quick):
     docs += dm.value_sweep(dm.SIMPLE_POOL)
     docs += dm.structure_sweep(3, 3)
     docs += dm.decoration_sweep()[:: (40 if quick else 8)]
+    docs += [(l, d) for l, d in dm.comment_sweep(1) if l.startswith(("CM:AA:", "CM:B_A:meta_sep", "CM:S_A:nometa")) and "hc:" not in l]     # every single comment place, incl. footer comments
     docs.append(("X:own-seal-section", Doc([A("K", S("v")), Sec("9", "SEAL", [A("NOTE", S("mine"))]), A("Z", I(1))])))
     docs.append(("X:nested-seal-block", Doc([B("SEAL", [A("K", S("v"))]), B("B1", [Sec("1", "SEAL", [A("Q", S("q"))])])])))
     return docs
@@ -371,6 +372,28 @@ def check_cli(case) -> Res:
     # tamper: change one value / one hash digit in the text
     sealed_doc = parse(sealed_text)
     m = sealed_model(d, sealed_doc)
+    if norm(dmap(sealed_doc)) != norm(dm.dcontent(m)):
+        # sealing changed the source content (reported by the API sub-check): the model no longer describes the sealed file
+        return Res("sealed-model-mismatch", nontrivial=label, violations=viol, transitions=8)
+    # cosmetic respellings of the sealed file (every single site, incl. the SEAL section's own lines, + all-on): still VERIFIED, exit 0
+    stc = sites(m)
+    seen_k = set()
+    for ch in [{sid: o} for (sid, k, n) in stc for o in range(1, n)] + [{sid: 1 for (sid, k, n) in stc}]:
+        rr = render(m, ch)
+        try:
+            if norm(dmap(parse_with_warnings(rr.text)[0])) != norm(dm.dcontent(m)):
+                continue
+        except (LexerError, ParserError):
+            continue
+        with open(out, "w", encoding="utf-8", newline="") as f:
+            f.write(rr.text)
+        q = L["runner"].invoke(L["cli"], ["validate", out, "--verify-seal", "--require-seal"])
+        if q.exit_code != 0 or "Seal: VERIFIED" not in q.output:
+            kinds = "+".join(sorted({k for (sid, k, n) in rr.sites if ch.get(sid)}))
+            if kinds not in seen_k:
+                seen_k.add(kinds)
+                viol.append(dict(descriptor=f"cli:cosmetic-respelling-not-VERIFIED:{kinds}", case=dict(cs0, choices={str(k): v for k, v in ch.items()}),
+                                 observed=f"exit={q.exit_code} {q.output[-160:]!r} text={rr.text!r}"[:700], expected="Seal: VERIFIED and exit 0"))
     tamp = [(t, mm) for t, mm in mutations(m)[:12] + hash_mutations(m)[:3]]
     seen = set()
     for tag, mm in tamp:
